@@ -8,7 +8,9 @@
    observation of one FetchData call: how many connections the peer saw, whether the handshake
    completed and with which protocol, the two keys the PEER exported from that session, and
    what FetchData returned.  The oracle walks through a history of FetchData / StoreCookie
-   calls on one Fetcher. *)
+   calls on one Fetcher.  The key exchange runs over TLS/TCP or over QUIC/SCION ([scion]); the
+   only clause that depends on it is the default target: "the standard NTP port" is 123 for
+   NTP over IP and 10123 for NTP over SCION in this project. *)
 From ST Require Import Base.Ints Model.Ntske.
 From Coq Require Import ZArith List Bool.
 Import ListNotations.
@@ -93,7 +95,7 @@ Definition scanned (rs : list krec) (k : nat) : scan_acc := snd (scan (delivered
 (* ---------- scripts, observations ---------- *)
 
 Record script := {
-  sc_mode : Z;               (* 0: TLS server; 1: nothing listens; 2: accepts TCP, never completes a handshake *)
+  sc_mode : Z;               (* 0: TLS (QUIC) server; 1: nothing listens; 2: accepts TCP, never completes a handshake *)
   sc_alpn : list bytes;
   sc_recs : list krec;
   sc_tail : bytes;           (* raw bytes sent after the records (malformed streams) *)
@@ -133,7 +135,9 @@ Definition info_matches (st : ostate) (d : kdata) : bool :=
 Definition opt_bytes (o : option bytes) (dflt : bytes) : bytes := match o with Some v => v | None => dflt end.
 Definition opt_z (o : option Z) (dflt : Z) : Z := match o with Some v => v | None => dflt end.
 
-Definition fetch_ok (st : ostate) (sc : script) (o : fobs) : option ostate :=
+Definition std_ntp_port (scion : bool) : Z := if scion then 10123 else 123.
+
+Definition fetch_ok (scion : bool) (st : ostate) (sc : script) (o : fobs) : option ostate :=
   if os_free st then Some st else
   let d := o_data o in
   match os_pool st with
@@ -161,7 +165,7 @@ Definition fetch_ok (st : ostate) (sc : script) (o : fobs) : option ostate :=
         && (if strict then
               bytes_list_eqb (k_cookies d) (a_cookies a)
               && bytes_eqb (k_server d) (opt_bytes (a_server a) (sc_host sc))
-              && (k_port d =? opt_z (a_port a) 123)
+              && (k_port d =? opt_z (a_port a) (std_ntp_port scion))
             else true)
       else true in
     if attempted && iff_ok && data_ok then
@@ -182,15 +186,16 @@ Definition store_ok (st : ostate) (c : bytes) : ostate :=
 Inductive op := OpFetch (sc : script) | OpStore (c : bytes).
 
 (* observations: one per FetchData, in order *)
-Fixpoint hist_ok (st : ostate) (ops : list op) (obs : list fobs) : bool :=
+Fixpoint hist_ok (scion : bool) (st : ostate) (ops : list op) (obs : list fobs) : bool :=
   match ops with
   | [] => match obs with [] => true | _ => false end
-  | OpStore c :: rest => hist_ok (store_ok st c) rest obs
+  | OpStore c :: rest => hist_ok scion (store_ok st c) rest obs
   | OpFetch sc :: rest =>
     match obs with
     | [] => false
-    | o :: obs' => match fetch_ok st sc o with Some st' => hist_ok st' rest obs' | None => false end
+    | o :: obs' => match fetch_ok scion st sc o with Some st' => hist_ok scion st' rest obs' | None => false end
     end
   end.
 
-Definition C20_ok (ops : list op) (obs : list fobs) : bool := hist_ok os0 ops obs.
+(* a history on one Fetcher; scion = the Fetcher does its key exchanges over QUIC/SCION *)
+Definition C20_ok (scion : bool) (ops : list op) (obs : list fobs) : bool := hist_ok scion os0 ops obs.
